@@ -524,6 +524,8 @@ func RefScalar(k TK, base int, s string) RefVal {
 		return RefVal{Cls: MustAccept, HasVal: true, Val: reflect.ValueOf(Res(strings.ToLower(s)))}
 	case k == KBag:
 		return RefVal{Cls: MustAccept, HasVal: true, Val: reflect.ValueOf(Bag{items: []string{s}})}
+	case k == KMode:
+		return RefVal{Cls: MustAccept, HasVal: true, Val: reflect.ValueOf(ModeVal{allowed: vocabulary, v: s})}
 	}
 	panic("RefScalar: bad kind")
 }
